@@ -43,6 +43,21 @@ pub fn bytes_contains(s: &[u8], c: u8) -> (r: bool)
     false
 }
 
+/// `s.iter().all(|&b| b == c)` on byte slices (rule R6c); proved against its spec.
+pub fn bytes_all_eq(s: &[u8], c: u8) -> (r: bool)
+    ensures r == (forall|i: int| 0 <= i < s@.len() ==> s@[i] == c)
+{
+    let mut i: usize = 0;
+    while i < s.len()
+        invariant i <= s.len(), forall|j: int| 0 <= j < i ==> s@[j] == c,
+        decreases s.len() - i
+    {
+        if s[i] != c { return false; }
+        i += 1;
+    }
+    true
+}
+
 #[verifier::external_body]
 pub fn empty_bytes() -> (r: &'static [u8]) ensures r@.len() == 0 { &[] }
 
